@@ -454,8 +454,54 @@ func vfChainWireSib(r vfRepairRoot, p vrt.Path, n int, badAt int, sib string) ([
 var vfInvalidShapes = map[string]string{"run-of-3": "M\xff\xff\xff", "truncated-4-byte-code-point": "M\xf0\x9f\x98"}
 
 func vfChainWireShape(r vfRepairRoot, p vrt.Path, n int, badAt int, sib string, bad string) ([]byte, bool) {
+	return vfChainWirePad(r, p, n, badAt, sib, bad, nil)
+}
+
+// vfSiblingArms: for every repeated message field on the path whose element type has a oneof, the arms of that oneof
+// that are messages - a sibling element can be of any of these kinds (a history task next to a sync-activity task, an
+// event of another type next to the failed one).
+type vfSibArm struct {
+	list protoreflect.FieldDescriptor
+	arm  protoreflect.FieldDescriptor
+}
+
+func vfSiblingArms(p vrt.Path) []vfSibArm {
+	var out []vfSibArm
+	seen := map[protoreflect.FullName]bool{}
+	for _, st := range p {
+		f := st.Field
+		if !f.IsList() || st.Blob || f.Kind() != protoreflect.MessageKind || seen[f.FullName()] {
+			continue
+		}
+		seen[f.FullName()] = true
+		oos := f.Message().Oneofs()
+		for i := 0; i < oos.Len(); i++ {
+			fs := oos.Get(i).Fields()
+			for k := 0; k < fs.Len(); k++ {
+				if fs.Get(k).Kind() == protoreflect.MessageKind {
+					out = append(out, vfSibArm{f, fs.Get(k)})
+				}
+			}
+		}
+	}
+	return out
+}
+
+func vfChainWirePad(r vfRepairRoot, p vrt.Path, n int, badAt int, sib string, bad string, arm *vfSibArm) ([]byte, bool) {
 	const marker = "MSG~"
 	pad := func(f protoreflect.FieldDescriptor) protoreflect.Message { return vrt.NewMessage(f.Message()) }
+	if arm != nil {
+		// only the one list gets a sibling, and that sibling is of the given kind (empty attributes of that arm)
+		pad = func(f protoreflect.FieldDescriptor) protoreflect.Message {
+			if f.FullName() != arm.list.FullName() {
+				return nil
+			}
+			m := vrt.NewMessage(f.Message())
+			m.Mutable(arm.arm)
+			vrt.DecorateEvent(m, arm.arm)
+			return m
+		}
+	}
 	opts := vrt.BuildOpts{Decorate: vrt.DecorateEvent}
 	switch sib {
 	case "before":
@@ -475,11 +521,11 @@ func vfChainWireShape(r vfRepairRoot, p vrt.Path, n int, badAt int, sib string, 
 		if leaf.IsList() {
 			f := vrt.NewMessage(leaf.Message())
 			set(f, 1)
-			if sib == "before" {
+			if sib == "before" && arm == nil {
 				m.Mutable(leaf).List().Append(protoreflect.ValueOfMessage(vrt.NewMessage(leaf.Message())))
 			}
 			m.Mutable(leaf).List().Append(protoreflect.ValueOfMessage(f))
-			if sib == "after" {
+			if sib == "after" && arm == nil {
 				m.Mutable(leaf).List().Append(protoreflect.ValueOfMessage(vrt.NewMessage(leaf.Message())))
 			}
 		} else {
@@ -522,7 +568,7 @@ func TestVerifC18(t *testing.T) {
 			res.Violate("C18/conversion-table/wrong-legacy-type", fmt.Sprintf("%s is down-converted to the legacy type %s: failure messages in it are decoded with the wrong schema and never repaired", r.MD.FullName(), got), map[string]any{"root": string(r.MD.FullName())})
 		}
 	}
-	var pairs, skippedLegacy, siblingCases int64
+	var pairs, skippedLegacy, siblingCases, armCases int64
 	var skipped sync.Map
 	type job struct {
 		r vfRepairRoot
@@ -590,6 +636,38 @@ func TestVerifC18(t *testing.T) {
 				}
 			}
 		}
+		// a sibling of another kind (another arm of the element's oneof) before the repaired element: quick takes the
+		// arms of the outermost such list, thorough every arm of every list on the way
+		arms := vfSiblingArms(j.p)
+		if !vrt.Thorough() && len(arms) > 0 {
+			first := arms[0].list.FullName()
+			var keep []vfSibArm
+			for _, a := range arms {
+				if a.list.FullName() == first {
+					keep = append(keep, a)
+				}
+			}
+			arms = keep
+		}
+		for ai := range arms {
+			a := arms[ai]
+			for _, sib := range []string{"before", "after"} {
+				if sib == "after" && !vrt.Thorough() {
+					continue
+				}
+				wire, known := vfChainWirePad(j.r, j.p, 1, 1, sib, "MSG\xff", &a)
+				if !known {
+					continue
+				}
+				atomic.AddInt64(&armCases, 1)
+				sigPath := j.p.String()
+				if len(sigPath) > 120 {
+					sigPath = sigPath[len(sigPath)-120:]
+				}
+				rp := map[string]any{"root": string(j.r.MD.FullName()), "path": j.p.String(), "depth": 1, "sibling": sib, "sibling_kind": string(a.arm.Name()), "sibling_in": string(a.list.FullName())}
+				vfCheckWire(res, "C18/sibling-of-kind-"+string(a.arm.Name())+"-"+sib+"/"+sigPath, j.r, wire, fmt.Sprintf("invalid UTF-8 in the failure message of %s, with an element of kind %s %s it in %s", j.p, a.arm.Name(), sib, a.list.FullName()), rp, st)
+			}
+		}
 	})
 	// all paths of a root at once (fully populated, every failure message invalid)
 	var allAtOnce int64
@@ -619,6 +697,7 @@ func TestVerifC18(t *testing.T) {
 	res.Set("distinct_nontrivial", st.repaired+st.refused)
 	res.Set("type_path_pairs", pairs)
 	res.Set("sibling_element_cases", siblingCases)
+	res.Set("sibling_of_another_kind_cases", armCases)
 	res.Set("type_path_pairs_unknown_to_legacy_schema", skippedLegacy)
 	res.Set("roots_checked_all_at_once", allAtOnce)
 	res.Set("inputs_to_be_repaired", st.repaired)
@@ -627,7 +706,7 @@ func TestVerifC18(t *testing.T) {
 		sk = sk[:12]
 	}
 	res.Set("examples_unknown_to_legacy_schema", sk)
-	res.Set("rule", "for every down-convertible request/response type: every structural path from the descriptors (through oneofs, repeated fields, History events, commands; each type at most twice) to a field of type Failure that the legacy schema also knows x chain depth 1..10 (must be repaired) and 11 (error or correct repair); at depth 1-2 also with a run of three invalid bytes and a truncated 4-byte code point; the same at depth 1-2 with a failure-free sibling element before / after the repaired one in every repeated field on the way; the conversion tables pair every type with the legacy type of the same name; plus all failure messages of the fully populated message at once; non-trivial = inputs the standard codec rejects for invalid UTF-8")
+	res.Set("rule", "for every down-convertible request/response type: every structural path from the descriptors (through oneofs, repeated fields, History events, commands; each type at most twice) to a field of type Failure that the legacy schema also knows x chain depth 1..10 (must be repaired) and 11 (error or correct repair); at depth 1-2 also with a run of three invalid bytes and a truncated 4-byte code point; the same at depth 1-2 with a failure-free sibling element before / after the repaired one in every repeated field on the way, and at depth 1 with a sibling of every other kind (every message arm of the element's oneof: another replication-task type, another event type, another command type) before it (thorough: also after it, and in every list on the way, not only the outermost); the conversion tables pair every type with the legacy type of the same name; plus all failure messages of the fully populated message at once; non-trivial = inputs the standard codec rejects for invalid UTF-8")
 	res.Set("exhaustive", true)
 	if len(jobs) > 0 {
 		res.Sample(map[string]any{"root": string(jobs[0].r.MD.FullName()), "path": jobs[0].p.String(), "depth": 10})
